@@ -143,7 +143,7 @@ theorem step_local {sh : Sh} {t : Tid} {pc : Pc} {op : Op} {sh' : Sh} {pc' : Pc}
   | pLinked id we =>
     simp only [step] at h
     split at h
-    · simp at h; obtain ⟨rfl, rfl⟩ := h; exact frame_step g rfl (L_idle l rfl rfl (by simp))
+    · split at h <;> (simp at h; obtain ⟨rfl, rfl⟩ := h; exact frame_step g rfl (L_idle l rfl rfl (by simp)))
     · split at h
       · simp at h; obtain ⟨rfl, rfl⟩ := h; exact frame_step g rfl (L_idle l rfl rfl (by simp))
       · simp at h; obtain ⟨rfl, rfl⟩ := h; exact frame_step g rfl (L_idle l rfl rfl (by simp))
